@@ -34,8 +34,8 @@ class Lit(object):
 class Field(object):
     """name: unique; lang: NFA; kind: what the text is (drives the conversion lemmas); den: denotation (any object/term)"""
 
-    def __init__(self, name, lang, kind='text', den=None):
-        self.name, self.lang, self.kind, self.den = name, lang, kind, den
+    def __init__(self, name, lang, kind='text', den=None, fixed_len=None):
+        self.name, self.lang, self.kind, self.den, self.fixed_len = name, lang, kind, den, fixed_len
 
     def nfa(self):
         return self.lang
@@ -132,6 +132,8 @@ class SStrPlugin(object):
         h['native_call_sym'] = self.native_call_sym
         h['truth'] = self.truth
         h['str_contains'] = self.str_contains
+        self._prev['val_contains'] = h.get('val_contains')
+        h['val_contains'] = self.val_contains
         self.conversions = {}      # (builtin name, field kind) -> fn(it, field) -> value
         self.fmt = {}              # conversion char -> fn(it, value) -> Field | str
 
@@ -247,11 +249,23 @@ class SStrPlugin(object):
             return p(it, v)
         raise OutOfSubset('len')
 
+    def val_contains(self, it, container, x):
+        if isinstance(container, Shape) and isinstance(x, str):
+            d, new = self.decide(it, container, A.concat(A.sigma_star(), A.lit(x), A.sigma_star()), 'contains_%s' % x[:4])
+            self.rebind(it, container, new)
+            return d
+        p = self._prev.get('val_contains')
+        if p:
+            return p(it, container, x)
+        raise OutOfSubset('in on %r' % (container,))
+
     def str_contains(self, it, container, x):
         raise OutOfSubset('symbolic in str')
 
     # ---------------------------------------------------------------- methods
     def getattr(self, it, obj, name):
+        if isinstance(obj, Poison):
+            raise obj.exc
         if isinstance(obj, Shape):
             return AbstractCallable('str.' + name, lambda it2, args, kw: self.method(it2, obj, name, args, kw))
         if isinstance(obj, MatchObj):
@@ -282,7 +296,11 @@ class SStrPlugin(object):
         if name == 'replace':
             return self.replace(it, sh, args)
         if name == 'ljust':
-            raise OutOfSubset('ljust on symbolic string')
+            n = _fixed_length(sh)
+            if n is None or not isinstance(args[0], int) or (len(args) > 1 and not isinstance(args[1], str)):
+                raise OutOfSubset('ljust on a string of unknown length')
+            pad = args[1] if len(args) > 1 else ' '
+            return Shape(list(sh.parts) + [Lit(pad * max(0, args[0] - n))], sh.cons, sh.neg) if args[0] > n else sh
         if name == 'decode':
             return sh
         if name == 'strip':
@@ -340,6 +358,25 @@ class SStrPlugin(object):
                     parts[0] = Lit(parts[0].text[n:])
                     n = 0
                 return Shape(parts)
+            if isinstance(key, slice) and key.step is None and key.start in (None, 0) and isinstance(key.stop, int) and key.stop >= 0:
+                # s[:n] on parts of known length: cut at a part boundary
+                out, n = [], key.stop
+                for p in obj.parts:
+                    ln = len(p.text) if isinstance(p, Lit) else p.fixed_len
+                    if ln is None:
+                        raise OutOfSubset('s[:%d] of a string of unknown length' % key.stop)
+                    if n >= ln:
+                        out.append(p)
+                        n -= ln
+                    elif n == 0:
+                        break
+                    elif isinstance(p, Lit):
+                        out.append(Lit(p.text[:n]))
+                        n = 0
+                        break
+                    else:
+                        raise OutOfSubset('s[:%d] cuts into a field' % key.stop)
+                return Shape(out)
             if isinstance(key, slice) and key.step is None and isinstance(key.start, int) and isinstance(key.stop, int) and 0 <= key.start <= key.stop:
                 # s[a:b]: decided when it lies inside a leading literal, otherwise by language
                 c = obj.parts[0].text if obj.parts and isinstance(obj.parts[0], Lit) else ''
@@ -408,7 +445,10 @@ class SStrPlugin(object):
         gm = tuple(range(1, n + 1))
         marked = S.match_language(pat.pattern, pat.flags, marks=gm) if how == 'match' else S.body(pat.pattern, pat.flags, marks=gm)
         for g in gm:
-            out.append(self.group_value(it, pat, sh, marked, g, n))
+            try:
+                out.append(self.group_value(it, pat, sh, marked, g, n))
+            except Misaligned as e:
+                out.append(Poison(e))       # only an error if the program uses this group
         return out
 
     def group_value(self, it, pat, sh, marked, g, n):
@@ -426,21 +466,43 @@ class SStrPlugin(object):
         cons = [A.allow_marks(c, bmarks + ['<%d' % g, '>%d' % g]) for c in sh.cons]
         negs = [A.allow_marks(c, bmarks + ['<%d' % g, '>%d' % g]) for c in sh.neg]
         order = _order_language(bmarks, g)
-        aligned = _aligned_language(bmarks, g)
-        alpha = A.Alphabet([left, right, order, aligned] + cons + negs)
-        joint = [A.determinize(left, alpha), A.determinize(right, alpha), A.determinize(order, alpha)] + \
+        alpha = A.Alphabet([left, right] + cons + negs)
+        joint = [A.determinize(left, alpha), A.determinize(right, alpha)] + \
                 [A.determinize(c, alpha) for c in cons] + [A.complement(A.determinize(c, alpha)) for c in negs]
-        w_bad = A.product_witness(joint + [A.complement(A.determinize(aligned, alpha))], lambda f: all(f))
-        if w_bad is not None:
+        outcomes = _track_spans(alpha, joint, g, len(sh.parts))
+        bad = [o for o in outcomes if o[0] == 'bad']
+        inside = [o for o in outcomes if o[0] == 'inside']
+        spans = sorted({(o[1], o[2]) for o in outcomes if o[0] == 'span'})
+        absent = any(o[0] == 'absent' for o in outcomes)
+        if spans and len({i for i, _ in spans}) == 1:
+            top = (spans[0][0], max(j for _, j in spans))
+        else:
+            top = None
+        if (inside or len(spans) > 1) and not bad and top is not None and not absent and _greedy_tail(pat, g) \
+                and all(o[1] == top[0] and o[2] < top[1] for o in inside):
+            spans = [top]
+            outcomes = [o for o in outcomes if not (o[0] == 'span' and (o[1], o[2]) != top)]
+            # every misplaced run opens with the field and closes earlier than the field ends: CPython's greedy matching
+            # prefers the longest capture, provided an aligned run exists for every string of the shape (coverage)
+            sel = _span_language(bmarks, g, spans[0][0], spans[0][1])
+            al2 = A.Alphabet([left, right, sel] + cons + negs)
+            prod = [A.determinize(x, al2) for x in [left, right, sel] + cons] + [A.complement(A.determinize(c, al2)) for c in negs]
+            covered = _project_product(al2, prod)
+            okc, wc = A.included(_shape_language(sh), covered)
+            if okc:
+                inside = []
+            else:
+                raise Misaligned(pat, g, wc, 'no run captures the whole field for %r' % (wc,))
+        if bad or inside:
+            w_bad = (bad[0][1] if bad else inside[0][3])
             text = ''.join(c for c in w_bad if len(c) == 1)
             raise Misaligned(pat, g, text, ''.join(w_bad))
         feasible = []
-        if A.product_witness(joint + [A.determinize(_no_marks(bmarks, g), alpha)], lambda f: all(f)) is not None:
-            feasible.append(None)
-        for i in range(len(sh.parts) + 1):
-            for j in range(i, len(sh.parts) + 1):
-                if A.product_witness(joint + [A.determinize(_span_language(bmarks, g, i, j), alpha)], lambda f: all(f)) is not None:
-                    feasible.append((i, j))
+        for o in outcomes:
+            if o[0] == 'absent' and None not in feasible:
+                feasible.append(None)
+            elif o[0] == 'span' and (o[1], o[2]) not in feasible:
+                feasible.append((o[1], o[2]))
         if not feasible:
             from .symex import Infeasible
             raise Infeasible()
@@ -454,6 +516,8 @@ class SStrPlugin(object):
     def convert(self, it, name, args):
         """float()/int() of a shape: conversion lemmas by field kind (ledger A-fl, A-bi)"""
         x = args[0]
+        if isinstance(x, Poison):
+            raise x.exc
         sh = to_shape(x)
         if sh is None:
             return NotImpl
@@ -470,6 +534,23 @@ class SStrPlugin(object):
         if f is not None:
             return f(it, sh)
         raise OutOfSubset('%s() of %r' % (name, sh))
+
+
+class Poison(object):
+    """a regex group that does not coincide with fields of the input: using it raises the recorded finding"""
+
+    def __init__(self, exc):
+        self.exc = exc
+
+
+def _fixed_length(sh):
+    n = 0
+    for p in sh.parts:
+        ln = len(p.text) if isinstance(p, Lit) else p.fixed_len
+        if ln is None:
+            return None
+        n += ln
+    return n
 
 
 class SplitAmbiguous(OutOfSubset):
@@ -519,6 +600,167 @@ def _dfa_product_nfa(alpha, d1, d2):
                 cs = cs | alpha.classes[s]
             out.add(ids[st], cs, ids[nx])
     return out
+
+
+def _track_spans(alpha, dfas, g, nparts):
+    """one BFS over the product of `dfas` with a tracker of where the marks of group g fall relative to boundary marks.
+    -> list of outcomes: ('absent',) | ('span', i, j) | ('bad', witness symbols)"""
+    import collections
+    nch = len(alpha.classes)
+    lo, hi = nch + alpha.marks.index('<%d' % g) if '<%d' % g in alpha.marks else -1, nch + alpha.marks.index('>%d' % g) if '>%d' % g in alpha.marks else -1
+    bidx = {}
+    for m in alpha.marks:
+        if m.startswith('#'):
+            bidx[nch + alpha.marks.index(m)] = int(m[1:])
+
+    # tracker state: (phase, i, lastb, smin, smax, slo, shi); phase in pre / in / done / inside / bad.  A maximal run of consecutive
+    # marks is one text position ("segment"); the group edge is aligned if its segment contains a boundary mark.
+    def resolve(t):
+        phase, i, lastb, smin, smax, slo, shi = t
+        if phase == 'bad':
+            return t
+        if slo and shi:
+            if phase != 'pre' or smin is None:
+                return ('bad', None, None, None, None, False, False)
+            return ('done', smin, smax, None, None, False, False)
+        if slo:
+            if phase != 'pre' or smax is None:
+                return ('bad', None, None, None, None, False, False)
+            return ('in', smax, smax, None, None, False, False)
+        if shi:
+            if phase != 'in':
+                return ('bad', None, None, None, None, False, False)
+            if smin is None:
+                return ('inside', i, lastb, None, None, False, False)
+            return ('done', i, smin, None, None, False, False)
+        if phase == 'in' and smax is not None:
+            return ('in', i, max(lastb, smax), None, None, False, False)
+        return (phase, i, lastb, None, None, False, False)
+
+    def step(t, sym):
+        phase, i, lastb, smin, smax, slo, shi = t
+        if phase == 'bad':
+            return t
+        if sym in bidx:
+            b = bidx[sym]
+            return (phase, i, lastb, b if smin is None else min(smin, b), b if smax is None else max(smax, b), slo, shi)
+        if sym == lo:
+            if slo or shi or phase != 'pre':
+                return ('bad', None, None, None, None, False, False)
+            return (phase, i, lastb, smin, smax, True, shi)
+        if sym == hi:
+            if shi or not (phase == 'in' or slo):
+                return ('bad', None, None, None, None, False, False)
+            return (phase, i, lastb, smin, smax, slo, True)
+        return resolve(t)       # a character: the segment ends
+    start = (tuple(d.start for d in dfas), ('pre', None, None, None, None, False, False))
+    prev = {start: None}
+    q = collections.deque([start])
+    out = {}
+    nsym = alpha.nsym
+    while q:
+        st = q.popleft()
+        ps, t = st
+        if all(s in d.finals for s, d in zip(ps, dfas)):
+            key = None
+            r = resolve(t)
+            if r[0] in ('bad', 'in'):
+                key = ('bad',)
+            elif r[0] == 'inside':
+                key = ('inside', r[1], r[2])
+            elif r[0] == 'pre':
+                key = ('absent',)
+            elif r[0] == 'done':
+                key = ('span', r[1], r[2])
+            if key is not None and key not in out:
+                path = []
+                cur = st
+                while prev[cur] is not None:
+                    cur, sym = prev[cur]
+                    path.append(alpha.show(sym))
+                path.reverse()
+                out[key] = path
+        for sym in range(nsym):
+            nt = step(t, sym)
+            nps = tuple(d.delta[s][sym] for s, d in zip(ps, dfas))
+            nx = (nps, nt)
+            if nx not in prev:
+                prev[nx] = (st, sym)
+                q.append(nx)
+    res = []
+    for key, path in out.items():
+        if key[0] == 'bad':
+            res.append(('bad', path))
+        elif key[0] == 'inside':
+            res.append(('inside', key[1], key[2], path))
+        else:
+            res.append(key)
+    return res
+
+
+def _greedy_tail(pat, g):
+    """group g's body ends with a greedy repeat (so among runs that open at the same place CPython prefers the longest capture)"""
+    from ..lang.sre2nfa import sre_c, parse
+
+    def find(tree):
+        for op, av in tree:
+            if op is sre_c.SUBPATTERN:
+                if av[0] == g:
+                    items = list(av[3])
+                    return bool(items) and items[-1][0] is sre_c.MAX_REPEAT
+                r = find(av[3])
+                if r is not None:
+                    return r
+            elif op is sre_c.BRANCH:
+                for alt in av[1]:
+                    r = find(alt)
+                    if r is not None:
+                        return r
+            elif op in (sre_c.MAX_REPEAT, sre_c.MIN_REPEAT):
+                r = find(av[2])
+                if r is not None:
+                    return r
+        return None
+    return bool(find(parse(pat.pattern, pat.flags)))
+
+
+def _project_product(alpha, dfas):
+    """NFA (over characters only) of the strings accepted by the product of `dfas` with every mark erased"""
+    out = A.NFA()
+    start = tuple(d.start for d in dfas)
+    ids = {start: out.new()}
+    out.start = ids[start]
+    work = [start]
+    nch = len(alpha.classes)
+    while work:
+        st = work.pop()
+        if all(s in d.finals for s, d in zip(st, dfas)):
+            out.finals.add(ids[st])
+        bysucc = {}
+        for sym in range(alpha.nsym):
+            nx = tuple(d.delta[s][sym] for s, d in zip(st, dfas))
+            bysucc.setdefault((nx, sym >= nch), []).append(sym)
+        for (nx, ismark), syms in bysucc.items():
+            if nx not in ids:
+                ids[nx] = out.new()
+                work.append(nx)
+            if ismark:
+                out.add(ids[st], None, ids[nx])
+            else:
+                cs = CS()
+                for sy in syms:
+                    cs = cs | alpha.classes[sy]
+                out.add(ids[st], cs, ids[nx])
+    return out
+
+
+def _shape_language(sh):
+    if not sh.cons and not sh.neg:
+        return sh.base()
+    autos = [sh.base()] + list(sh.cons)
+    alpha = A.Alphabet(autos + list(sh.neg))
+    ds = [A.determinize(a, alpha) for a in autos] + [A.complement(A.determinize(n, alpha)) for n in sh.neg]
+    return _project_product(alpha, ds)
 
 
 class Misaligned(OutOfSubset):
